@@ -98,19 +98,10 @@ func (da *doneAnalysis) cuts(fn *ssa.Function) map[core.Edge]bool {
 	for e := range pe {
 		cut[e] = true
 	}
-	core.AllInstrs(fn, func(in ssa.Instruction) {
-		sel, ok := in.(*ssa.Select)
-		if !ok {
-			return
-		}
-		for i, st := range sel.States {
-			if st.Dir == types.SendOnly && da.isHandoffChan(st.Chan) {
-				for e := range selectCaseEdges(sel, i) {
-					cut[e] = true
-				}
-			}
-		}
-	})
+	ph, _ := core.PassEdges(fn, selectSendGuard("hand-off chosen", da.isHandoffChan))
+	for e := range ph {
+		cut[e] = true
+	}
 	return cut
 }
 
